@@ -55,6 +55,13 @@ func c13Configs() []c13Config {
 	}
 }
 
+// grammars that lox refuses with "grammar has conflicts" after printing the report
+var c13ConflictGrammars = []string{
+	"@lexer\nX = 'x'\nY = 'y'\n@parser\n@start s = s s | X | Y\n",
+	"@lexer\nX = 'x'\nY = 'y'\n@parser\n@start s = a Y | b Y\na = X\nb = X\n",
+	"@lexer\nX = 'x'\nY = 'y'\n@parser\n@start s = s Y s @left(1) | s X s | X\n",
+}
+
 var c13Gen = []string{"base.gen.go", "lexer.gen.go", "parser.gen.go"}
 
 // c13OrderKey is a pseudo file of a directory state: "rev" means the files of
@@ -247,6 +254,29 @@ func c13DirWorker(c *mc.Ctx, depth int) {
 		}
 		r.fresh = append(r.fresh, first)
 		r.rep = append(r.rep, firstRep)
+	}
+	// grammars with conflicts: the --report text is printed before lox gives up;
+	// it too must not depend on how the directory was named or where lox ran
+	for ci, cg := range c13ConflictGrammars {
+		d := dirState{"g.lox": cg, "user.go": c13UserA}
+		var firstRep string
+		for k, mode := range []string{".", "relative", "absolute"} {
+			_, so, se, exit := r.runLox(d, mode, true)
+			c.Stats.Evaluations++
+			c.Stats.Nontrivial++
+			if exit == 0 || !strings.Contains(se, "conflict") {
+				c.Stats.HarnessError("conflict grammar %d: expected lox to report conflicts (exit %d): %s", ci, exit, firstLine(se))
+				break
+			}
+			if k == 0 {
+				firstRep = so
+				continue
+			}
+			if so != firstRep {
+				c.Stats.Violate(mc.Violation{Property: "C13", Check: "C13", Kind: "repeat-report", Size: ci, Case: mustJSON(map[string]any{"conflict_grammar": cg, "mode": mode}),
+					Detail: fmt.Sprintf("grammar with conflicts {%s}: the --report text differs between invocation %q and \".\": %s", strings.ReplaceAll(cg, "\n", " | "), mode, pipe.FirstDiff(so, firstRep))})
+			}
+		}
 	}
 	// BFS over directory states
 	type node struct {
@@ -670,7 +700,7 @@ func init() {
 		ID:    "C13",
 		Level: "model_checking",
 		Rule: "(a) map iteration order: every `range` over a built-in map in lox's non-test sources is rewritten at check time into a loop over keys the explorer orders (canonical order = default choice); for each specification the whole pipeline is executed under every schedule with one deviating dynamic occurrence (every non-identity permutation for maps of <= 3 keys, else reverse / rotate / swap-first / swap-last), under every site-uniform policy (reverse, rotate) of one site (thorough: two sites) and of all sites; generated files, --report text and diagnostics must hash to one value; states = dynamic map iterations, transitions = executions. " +
-			"(b) earlier runs: breadth-first search over directory states (the files of the package directory), events = run the REAL binary for grammar A / grammar B / A with _onBounds / A with two declarations exchanged / A split over two files (invoked as '.', by relative path and by absolute path from another directory; a run replaces the directory's source files and keeps its generated files), delete each *.gen.go, replace each *.gen.go by another configuration's, re-create the directory's files in the opposite order; every run must exit 0 and leave exactly the bytes a fresh directory gets; non-trivial = one real run over a non-fresh directory",
+			"(b) earlier runs: breadth-first search over directory states (the files of the package directory), events = run the REAL binary for grammar A / grammar B / A with _onBounds / A with two declarations exchanged / A split over two files (invoked as '.', by relative path and by absolute path from another directory; a run replaces the directory's source files and keeps its generated files), delete each *.gen.go, replace each *.gen.go by another configuration's, re-create the directory's files in the opposite order; every run must exit 0 and leave exactly the bytes a fresh directory gets; --report texts (also of three grammars that are refused for conflicts) are equal under the three invocations; non-trivial = one real run over a non-fresh directory",
 		Assume: []string{"libraries outside the repository (jet, go/types, gofmt, packages.Load) are exercised by the separate processes of (b), not explored", "a map whose keys have no canonical order would be reported as a cap (none today)"},
 		Worker: c13Worker,
 		Replay: c13Replay,
